@@ -1088,3 +1088,27 @@ Example C02_nonvacuous_tensordot_repeated_mode :
   tensordot ZR A B [0; 0] [0; 1] [] [] = Err /\
   tensordot_e ZR A B [0; 0] [0; 1] [] [] = Ok (mk [2] [4; 6]%Z).
 Proof. exact tensordot_repeated_nonvacuous. Qed.
+
+(* the main loop of core khatri_rao as the source tie reads it (regenerated step function `step`): if the first iteration starts
+   from `first` (matrices[0], weighted) and every iteration is one checked broadcast step kr_step_chk (2-D operands with n columns
+   each: the model's kr_step), then on operands that all have n columns the loop is fold_left kr_step from `first` - FULL; the
+   generated theorem khatri_rao_source_is_model instantiates it with the step function translated from the current source *)
+Theorem C02_source_khatri_rao_loop : forall (F : Type) (Op : rops F)
+  (step : option (tensor F) -> nat * tensor F -> res (option (tensor F))) (first : res (tensor F)) (n : nat),
+  (forall st e, step st (0, e) = rbind first (fun r => rbind (kr_step_chk Op r e n) (fun r' => Ok (Some r')))) ->
+  (forall a i e, step (Some a) (S i, e) = rbind (kr_step_chk Op a e n) (fun r' => Ok (Some r'))) ->
+  forall l, l <> [] -> Forall (fun M => exists b, shape M = [b; n]) l ->
+  (forall R0, first = Ok R0 -> exists a, shape R0 = [a; n]) ->
+  fold_res step (py_enumerate l) None = rbind first (fun R0 => Ok (Some (fold_left (kr_step Op) l R0))).
+Proof. exact @kr_loop. Qed.
+Print Assumptions C02_source_khatri_rao_loop.
+
+(* the list-building loop of unfolding_dot_khatri_rao_memory as the source tie reads it: a loop that appends one computed value
+   per item is `collect` over the items - FULL; with np_stack1 (np.stack(axis=1) of equally long 1-D arrays), the generated theorem
+   mttkrp_memory_source_is_model ties the current source of the memory variant to Model.Tenalg.mttkrp_memory on the inputs of
+   C02_mttkrp_memory *)
+Theorem C02_source_list_building_loop : forall (X A : Type) (f : X -> res A) (step : list A -> X -> res (list A)),
+  (forall acc x, step acc x = rbind (f x) (fun c => Ok (acc ++ [c]))) ->
+  forall l acc, fold_res step l acc = rbind (collect (map f l)) (fun cs => Ok (acc ++ cs)).
+Proof. exact @fold_res_append_sim. Qed.
+Print Assumptions C02_source_list_building_loop.
